@@ -42,6 +42,18 @@ def _mk(fname, sh, moore, plus_one, nh, ng):
                 run=run, label='per-shape')
 
 
+def _counts_for(sh, counts):
+    """Numbers of liveness predicates by size of the shape: the expansion of a
+    nested fixpoint obligation grows with 2^(state bits) x #holds x #goals; the
+    budget keeps every family below a few minutes on a loaded machine."""
+    nb = shapes.n_state_bits(sh)
+    if nb <= 3:
+        return list(counts)
+    if nb == 4:
+        return [c for c in counts if c[0] * c[1] <= 4]
+    return [c for c in counts if c[0] * c[1] <= 2]
+
+
 def families(tier, seed):
     out = list()
     shs = shapes.family(tier, seed)
@@ -49,10 +61,11 @@ def families(tier, seed):
     if tier == 'thorough':
         counts += [(3, 1), (1, 3), (3, 2), (2, 3), (3, 3)]
     for sh in shs:
+        cs = _counts_for(sh, counts)
         for moore, plus_one in shapes.MODES:
-            for nh in sorted({c[0] for c in counts}):
+            for nh in sorted({c[0] for c in cs}):
                 out.append(_mk('_attractor_under_assumptions', sh, moore, plus_one, nh, 1))
-            for nh, ng in counts:
+            for nh, ng in cs:
                 out.append(_mk('solve_streett_game', sh, moore, plus_one, nh, ng))
     return out
 
@@ -60,5 +73,5 @@ def families(tier, seed):
 def coverage_extra(results):
     return dict(bounded_parameters=dict(
         declaration_shape='finite family (ovc/shapes.py); actions and liveness predicates symbolic',
-        n_liveness='(#holds,#goals) in {1,2}^2 quick, {1,2,3}^2 thorough',
+        n_liveness='(#holds,#goals) in {1,2}^2 quick, {1,2,3}^2 thorough (shapes with 4 state bits: product <= 4; 5 bits: product <= 2)',
         modes='all 4: complete'))
